@@ -40,7 +40,11 @@ def plan(tier, seed):
             shards.append({"kind": "mirror", "tier": tier, "seed": seed, "shard": off, "offset": off, "ticks": 8000, "start": 65400, "subprocess": True})
         for i in range(6):
             shards.append({"kind": "mixed", "tier": tier, "seed": seed, "shard": i, "n": 2, "subprocess": True})
+        shards.append({"kind": "idlespin", "tier": tier, "seed": seed, "shard": 0, "idle": 1300.0, "spins": 70000, "subprocess": True})
     else:
+        for i in range(3):
+            shards.append({"kind": "idlespin", "tier": tier, "seed": seed, "shard": i, "idle": [1300.0, 2500.0, 4000.0][i], "spins": [70000, 140000, 200000][i],
+                           "subprocess": True})
         for i in range(6):
             shards.append({"kind": "silent", "tier": tier, "seed": seed, "shard": i, "start": [1, 30000, 65000, 65535, 100, 64000][i],
                            "datagrams": 400000, "dt": [1 / 60, 1 / 30, 1 / 60, 1 / 120, 1 / 60, 1 / 20][i], "subprocess": True})
@@ -74,6 +78,12 @@ class Preposition(object):
 
 def connect_at(w, start, C):
     c = w.add_client()
+    c.hello_datagram = None
+
+    def grab(direction, addr, d, client, n, _c=c):
+        if client is _c and _c.hello_datagram is None and len(d) > 12 and d[12] == 1:
+            _c.hello_datagram = d
+    w.wire_hooks.append(grab)
     c.connect()
     if start:
         c.udp.conn.seq_sending = C.SeqNum(start)
@@ -197,6 +207,43 @@ def run_mirror(cfg, out):
         pre.undo()
 
 
+def run_idlespin(cfg, out):
+    """a long idle period (keep-alives only), then both applications call send()/update() tens of thousands of times
+    within one clock second (time advances by 10 microseconds per call; the link is cut so both ack fields are frozen):
+    the protocol's own rate cap must keep the sequence number from wrapping inside that second (a send credit that
+    accumulates while idle would let it).  Message timeouts are tiny so that the bookkeeping of pending datagrams stays small."""
+    r = rng("C03", cfg["seed"], "idlespin", cfg["shard"])
+    with T.Run(r, dt=1 / 10, light=True,
+               ctxt_setup=lambda ctxt: (ctxt.setConnectionTimeout(60.0), ctxt.setKeepAliveInterval(1.0), ctxt.setMessageTimeout(0.002))) as run:
+        w = run.world
+        w.net.heal(0.01)
+        c = w.add_client()
+        c.udp.setKeepAliveInterval(1.0)
+        c.udp.setMessageTimeout(0.002)
+        c = w.connect_client(c)
+        w.step(int(cfg["idle"] / w.dt))
+        # just after a second boundary, cut the link
+        w.clock.now = float(int(w.clock.now) + 1) + 0.001
+        w.net.set(c2s=L.Policy(outage=True), s2c=L.Policy(outage=True))
+        n0 = run.c.get("wire_total", 0)
+        w.handler.on["update"] = [lambda dt: [cc.send(L.make_payload(0, w.server_iterations, 16)) for cc in list(w.ctxt.connections.values())]]
+        k = [0]
+
+        def act(world):
+            k[0] += 1
+            if c.udp.conn is not None:
+                c.udp.send(L.make_payload(1, k[0], 16), retry=0)
+        w.step(cfg["spins"], actions=act, dt_override=1e-5)
+        burst = run.c.get("wire_total", 0) - n0
+        out["counters"].inc("idlespin_spins", cfg["spins"])
+        out["counters"].inc("idlespin_datagrams_emitted_within_the_second", burst)
+        out["distinct"].add(h64("idlespin", cfg["idle"], cfg["spins"]))
+        out["samples"].append({"scenario": "idlespin", "idle_seconds": cfg["idle"], "update_calls_within_one_clock_second": cfg["spins"],
+                               "datagrams_emitted_within_that_second": burst})
+        finish_run(run, out, {"kind": "idlespin"})
+        return run.c.get("wire_total", 0)
+
+
 def run_mixed(cfg, out):
     total = 0
     for case in range(cfg["n"]):
@@ -210,6 +257,19 @@ def run_mixed(cfg, out):
                 w.net.heal(0.004)
                 c = connect_at(w, r.choice([0, 65100, 65530]), run.C)
                 c.updates_per_step = 2
+                # the very first datagram of the session (the hello) is duplicated / replayed later, while the server
+                # application has messages queued in the same tick
+                first = {}
+                w.wire_hooks.append(lambda direction, addr, d, client, n: first.setdefault("hello", d) if (direction == "c2s" and d[12] == 1) else None)
+                hello = [d for (_, _, dr, ad, d) in w.wire if dr == "c2s" and d[12] == 1][:1] if w.keep_wire else []
+                w.handler.on["update"] = [lambda dt: [cc.send(L.make_payload(0, w.ticks, 32)) for cc in list(w.ctxt.connections.values()) if w.ticks % 3 == 0]]
+                replay_r = rng("C03h", *key)
+
+                def replay_hello(world, _c=c, _first=first):
+                    if replay_r.random() < 0.03 and _c.hello_datagram is not None:
+                        world.net.inject("c2s", _c.addr, _c.hello_datagram, "replay:client-hello")
+                        run.c.inc("client_hello_replayed_after_key_agreement")
+                w.tick_hooks.append(replay_hello)
                 for phase in range(r.randint(3, 6)):
                     kind = r.choice(["traffic", "idle", "one-way-outage", "traffic"])
                     if kind == "traffic":
@@ -235,7 +295,7 @@ def run_mixed(cfg, out):
 
 def run_shard(cfg):
     out = {"violations": [], "counters": Counter(), "samples": [], "distinct": set()}
-    n = {"silent": run_silent, "burst": run_burst, "mirror": run_mirror, "mixed": run_mixed}[cfg["kind"]](cfg, out)
+    n = {"silent": run_silent, "burst": run_burst, "mirror": run_mirror, "mixed": run_mixed, "idlespin": run_idlespin}[cfg["kind"]](cfg, out)
     return {"evaluations": n, "distinct": sorted(out["distinct"]), "counters": dict(out["counters"]),
             "violations": out["violations"][:60], "samples": out["samples"]}
 
@@ -244,7 +304,8 @@ def finish(tier, seed, results):
     m = merge(results)
     inconclusive = []
     need(m["counters"], ["wire_gcm", "nonces_recorded", "wire_server_hello_clear", "silent_peer_datagrams", "silent_wraps",
-                         "mirror_same_time_seq_ack_in_both_directions", "wire_c2s", "wire_s2c"], inconclusive)
+                         "mirror_same_time_seq_ack_in_both_directions", "wire_c2s", "wire_s2c", "idlespin_spins",
+                         "client_hello_replayed_after_key_agreement"], inconclusive)
     cov = {
         "evaluations": m["evaluations"],
         "distinct_nontrivial": m["counters"].get("distinct_nonces", 0),
